@@ -101,6 +101,7 @@ def run(ctx):
                 fails.append(("lendec", f"lenDec={lenDec[i]!r} km for gamma={tauLorentz[i]!r}, speed={tauBeta[i]!r}, u={uu[i]!r}; -gamma beta c tau0 ln u = {want[i]!r}", i))
                 ok = False
         ctx.count("altdec", n)
+        beta = state.get("beta_pristine", beta) if state.get("beta_pristine") is not None and state["beta_pristine"].shape == beta.shape else beta
         wa = G.altitude_along(G.R_ASTROPY, lenDec, beta)
         err = np.abs(altDec - wa)
         tol = 1e-9 + 1e-9 * np.abs(wa)
@@ -140,6 +141,10 @@ def run(ctx):
                 beta[:4] = [0.0, b42, np.nextafter(b42, 0), axB[0]]
                 beta[4 : n // 10] = rng.choice(axB, n // 10 - 4)
                 beta[n // 10 : n // 8] = b42
+                # the pipeline hands the *same* emergence-angle array to the tau stage and then to the
+                # decay stage: keep pristine copies for the oracles and pass the same objects on
+                beta[4 + n // 8 : 4 + n // 8 + n // 20] = rng.uniform(0, axB[0], n // 20)  # below the tables' floor
+                beta_pristine, loge_pristine = beta.copy(), loge.copy()
                 wit = {"version": version, "etau_frac": frac, "mode": mode}
                 try:
                     if mode == "hostile":
@@ -157,6 +162,11 @@ def run(ctx):
                     ctx.exception("raises", f"Taus.__call__ v{version} raised on in-domain input [{mode}]", e, wit)
                     continue
                 tauBeta, tauLorentz, tauEnergy, showerEnergy, _ = res
+                state["beta_pristine"] = beta_pristine
+                ctx.count("inputs", n)
+                if beta.tobytes() != beta_pristine.tobytes() or loge.tobytes() != loge_pristine.tobytes():
+                    k_ = int(np.flatnonzero(beta != beta_pristine)[0]) if (beta != beta_pristine).any() else 0
+                    ctx.violation("inputs-modified", f"Taus.__call__ v{version} modified the emergence angles / energies it was given (event {k_}: {beta_pristine[k_]!r} -> {beta[k_]!r}); the decay stage then works on the wrong angle", wit)
                 ctx.distinct.add_rows(np.full(n, version), np.full(n, frac), loge, beta, tauEnergy)
                 ctx.track_worst("min_tau_energy_over_mass_inverse", M_TAU / float(np.min(tauEnergy)), 1.0)
                 # ---- decay point
@@ -191,6 +201,7 @@ def run(ctx):
                     for i in range(2):
                         ctx.sample({"log_e_nu": float(loge[i]), "beta_rad": float(beta[i]), "E_tau": float(tauEnergy[i]), "gamma": float(tauLorentz[i]), "speed": float(tauBeta[i]), "lenDec_km": float(lenDec[i]), "altDec_km": float(altDec[i])})
     # ---- monotonicity ladders on EAS.altDec ------------------------------------------------------
+    state["beta_pristine"] = None
     cfg = NssConfig()
     eas = EAS(cfg)
     nl = ctx.pick(400, 4000)
@@ -220,7 +231,7 @@ def run(ctx):
         except Exception as e:
             ctx.exception("raises", "EAS.altDec raised on a monotonicity ladder", e, {"gamma": g, "beta": be})
     ctx.count("contracts", ncontract["n"])
-    for m in ("lorentz", "speed", "shower", "energy", "lendec", "lendec-internal-generator", "altdec", "monotone", "contracts"):
+    for m in ("lorentz", "speed", "shower", "energy", "inputs", "lendec", "lendec-internal-generator", "altdec", "monotone", "contracts"):
         ctx.require(m)
     return ctx.finish(
         rule="3 table versions x etau_frac {1e-3, .5, 1} x {hostile, random}: logE in [6,12] (incl. exactly 6 and table nodes), beta in [0, 42 deg] incl. 0, exactly 42 deg and table nodes; energy draws through the RNG stub (5e-324 .. 1-1e-15) or the real generator; decay numbers in (0,1] incl. 5e-324 and exactly 1; a case is a distinct (version, frac, logE, beta, E_tau)",
